@@ -15,7 +15,7 @@ def forgery(rng, oid, has_priv, delay):
     """An otherwise-matching reply (right user, engine id, msgID, request-id) that
     fails authentication or the security level."""
     it = {"k": "custom", "pdu": "response", "varbinds": [[oid, ["octets", MARK]]], "delay_ns": delay}
-    kind = rng.choice(["zero", "random", "flip", "absent", "short", "noauth", "flag-cleared", "cleartext", "cleartext-flagged", "noauth-report-control", "valid-control", "bad-mac-cleartext", "noauth-any-flags", "noauth-any-flags"])
+    kind = rng.choice(["zero", "random", "flip", "absent", "short", "noauth", "flag-cleared", "cleartext", "cleartext-flagged", "noauth-report-control", "valid-control", "bad-mac-cleartext", "noauth-any-flags", "noauth-any-flags", "xor-words"])
     if kind in ("zero", "absent"):
         it["rewrite"] = {"mac": kind}
     elif kind == "random":
@@ -24,6 +24,9 @@ def forgery(rng, oid, has_priv, delay):
         it["rewrite"] = {"mac": {"mac": "flip", "flip_bit": rng.randrange(96)}}
     elif kind == "short":
         it["rewrite"] = {"mac": {"mac": "short", "mac_len": rng.choice([1, 4, 10, 11])}}
+    elif kind == "xor-words":
+        m = rng.choice([1, 0x80000000, 0xFFFFFFFF, rng.randrange(1, 2**32)])
+        it["rewrite"] = {"mac": {"mac": "xor-words", "xor_mask": "%08x" % m, "xor_at": rng.choice([[0, 1], [1, 2], [0, 2]])}}
     elif kind == "noauth":
         it["rewrite"] = {"noauth": 1}
     elif kind == "flag-cleared":
